@@ -92,6 +92,26 @@ def handleResolve (cmd : String) (rest : List String) : Option String :=
         some s!"{toHex sn} {Char.ofNat (indexLetterOf sn).toNat}"
       | none => some "bad-op"
     | _ => some "bad-op"
+  | "c14evd" =>
+    -- c14evd <#births> <#baptisms> <#deaths> <#burials> : the labels of the events IndividualDates shows
+    match parseNats rest with
+    | some [b, bp, d, bu] =>
+      let mk (n : Nat) (l : String) : List String := (List.range n).map (fun i => s!"{l}{i}")
+      some (showRes (fun (l : List String) => if l.isEmpty then "-" else ",".intercalate l)
+        (eventDates (mk b "b") (mk bp "bap") (mk d "d") (mk bu "bur")))
+    | _ => some "bad-op"
+  | "c14evdate" =>
+    -- c14evdate <#dates> : which date EventDate writes
+    match parseNats rest with
+    | some [n] => some (showRes (fun (o : Option Nat) => match o with | some i => toString i | none => "-")
+        (eventDate (List.range n)))
+    | _ => some "bad-op"
+  | "c14places" =>
+    -- c14places <hex key>* : one place page per key of the place map
+    match rest.mapM fromHex with
+    | some keys => some (showRes (fun (l : List Str) => if l.isEmpty then "-" else ",".intercalate (l.map toHex))
+        (placePages (keys.map fun k => (k, k))))
+    | none => some "bad-op"
   | "c14starts" =>
     match rest with
     | [h, l] => match fromHex h, fromHex l with
